@@ -402,6 +402,8 @@ theorem ESim.l_lookupArr (n : Str) : ESim (lookupArr n) := by esim_def lookupArr
 macro_rules | `(tactic| esim_lib) => `(tactic| exact ESim.l_lookupArr _)
 theorem ESim.l_scopeAct : ESim (scopeAct) := by esim_def scopeAct
 macro_rules | `(tactic| esim_lib) => `(tactic| exact ESim.l_scopeAct )
+theorem ESim.l_typeScopeAct : ESim (typeScopeAct) := by esim_def typeScopeAct
+macro_rules | `(tactic| esim_lib) => `(tactic| exact ESim.l_typeScopeAct )
 theorem ESim.l_lookupList {β : Type} (sel : Act → List (Str × β)) (n : Str) (g : Bool) : ESim (lookupList sel n g) := by esim_def lookupList
 macro_rules | `(tactic| esim_lib) => `(tactic| exact ESim.l_lookupList _ _ _)
 theorem ESim.l_enumDefOf (n : Str) (g : Bool) : ESim (enumDefOf n g) := by esim_def enumDefOf
@@ -551,6 +553,8 @@ theorem echo_scopeAct : ∀ s, EchoOKAt scopeAct s := by echo_def scopeAct
 macro_rules | `(tactic| echo_lib) => `(tactic| exact echo_scopeAct _)
 theorem echo_globalAct : ∀ s, EchoOKAt globalAct s := by echo_def globalAct
 macro_rules | `(tactic| echo_lib) => `(tactic| exact echo_globalAct _)
+theorem echo_typeScopeAct : ∀ s, EchoOKAt typeScopeAct s := by echo_def typeScopeAct
+macro_rules | `(tactic| echo_lib) => `(tactic| exact echo_typeScopeAct _)
 theorem echo_lookupList {β : Type} (sel : Act → List (Str × β)) (n : Str) (g : Bool) : ∀ s, EchoOKAt (lookupList sel n g) s := by
   echo_def lookupList
 macro_rules | `(tactic| echo_lib) => `(tactic| exact echo_lookupList _ _ _ _)
